@@ -32,7 +32,8 @@ func (ex *Exec) unop(in *ssa.UnOp, x Value) Value {
 				if vv.isNil() {
 					return ex.emptyStr
 				}
-				return &StrV{b: ex.bytesOf(vv), num: vv.num}
+				h := *vv
+				return &StrV{b: ex.bytesOf(vv), num: vv.num, src: &h}
 			}
 		case StructV:
 			// StringToBytes: *(*[]byte)(unsafe.Pointer(&struct{string; Cap int}{s, len(s)}))
